@@ -171,6 +171,37 @@ Fixpoint fired_steps (i : Z) (c : bool * spec) (steps : list (gop * list aop)) :
     (fs, r) :: fired_steps i c' steps'
   end.
 
+(* Drain runs its callbacks concurrently (a bounded runner): the order in which THEIR calls reach
+   the wheel is the scheduler's choice.  It is an oracle taken from the observation and checked to
+   be a permutation of the calls the drained callbacks make; all other steps are as in [rstep]. *)
+Section ReactOracle.
+Context {W : Type}.
+Variable stepf : W -> aop -> W * fired * res.
+Variable hold : list Z.
+Variable rc : list (Z * aop).
+
+Fixpoint react_calls (s : dstate) (es : list aop) : @dstate W * fired :=
+  match es with
+  | [] => (s, [])
+  | a :: es' =>
+    let '(s1, d1, _) := gstep stepf hold s (GCall a) in
+    let '(s2, d2) := react_calls s1 es' in (s2, d1 ++ d2)
+  end.
+
+Definition rstep_o (s : dstate) (o : gop) (eobs : list aop) : @dstate W * fired * res * list aop :=
+  let '(s1, d, r) := gstep stepf hold s o in
+  let all := reacts_of rc d in
+  let es := if is_drain o then (if perm_aops all eobs then eobs else all) else all in
+  let '(s2, d2) := react_calls s1 es in (s2, d ++ d2, r, es).
+
+Fixpoint rrun_o (s : dstate) (ops : list gop) (eobs : list (list aop)) : list (fired * res * list aop) :=
+  match ops with
+  | [] => []
+  | o :: ops' =>
+    let '(s', d, r, e) := rstep_o s o (hd [] eobs) in (d, r, e) :: rrun_o s' ops' (tl eobs)
+  end.
+End ReactOracle.
+
 Definition aop_in_scope (i : Z) (o : aop) : bool :=
   match o with
   | ASet _ _ d | AMove _ d => (d <=? 0) || (i <=? d)
@@ -200,7 +231,7 @@ Fixpoint agrees (c : case) : bool :=
     (* the pointer-level model gives the order of the callbacks inside a batch *)
     list_eqb fr_eqb (grun acstep hold (mkD (acinit n i) [] []) ops) obs
   | CReact n i hold rc ops obs =>
-    list_eqb fre_eqb (rrun acstep hold (react_of rc) (mkD (acinit n i) [] []) ops) obs
+    list_eqb fre_eqb (rrun_o acstep hold rc (mkD (acinit n i) [] []) ops (map snd obs)) obs
   | CBoth a b => agrees a && agrees b
   | CStamped n i ops obs =>
     list_eqb fr_eqb (srun (ainit n i) ops) obs
@@ -276,8 +307,8 @@ Fixpoint prop_ok (c : case) : bool :=
       (* the calls made during an operation are those of the callbacks that ran during it *)
       && forallb (fun oe => let '(o, (d, _, e)) := oe in
                             let all := reacts_of rc d in
-                            if is_drain o || existsb (aop_eqb ADrain) e
-                            then sub_aops e all      (* callbacks run by Drain do not call back *)
+                            if existsb (aop_eqb ADrain) e
+                            then sub_aops e all      (* callbacks run by a Drain called from a callback do not call back *)
                             else perm_aops all e)
                  (combine ops obs)
     else true
@@ -304,7 +335,7 @@ Fixpoint model_obs (c : case) : list fired :=
     canon (run (init n i) (flat_map (fun x => match ev_op x with FReq o => [o] | _ => [] end) ops))
   | CGated n i hold ops _ => canon (map fst (grun astep hold (mkD (ainit n i) [] []) ops))
   | CReact n i hold rc ops _ =>
-    canon (map (fun x => fst (fst x)) (rrun astep hold (react_of rc) (mkD (ainit n i) [] []) ops))
+    canon (map (fun x => fst (fst x)) (rrun_o astep hold rc (mkD (ainit n i) [] []) ops []))
   | CBoth a b => model_obs a ++ model_obs b
   | CStamped n i ops _ => canon (map fst (srun (ainit n i) ops))
   | CTicker _ _ => []
